@@ -1943,6 +1943,11 @@ impl TypeChecker {
                         forall|k: int| 0 <= k < it.index@ && lit_head(#[trigger] values@[k]) is Some ==> head(ty_of(self.types@, inner_ty)) == lit_head(values@[k])->Some_0, //# C03 expression.loop10.the_element_type_is_the_type_of_every_literal_so_far
 //@   endloop
 //@   ghost before
+//@| let mut ret = ret;
+//@| for (a, p) in args.iter().zip(params.iter()) {
+                        assert(ctx.inside_pure ==> purity is Pure); //# C04 expression.a_call_inside_a_pure_function_is_only_checked_further_if_the_callee_is_known_to_be_pure
+//@   endghost
+//@   ghost before
 //@| let var = &self.variables[*var];
                 proof { lemma_var_valid(self, *var as int); }
 //@   endghost
